@@ -180,6 +180,10 @@ def cases():
         ('remove_literal_statements', 'class_doc_used', 'class Documented:\n    """class docstring"""\n    attribute = 1\nprint(Documented.__doc__)\n', True),
         ('combine_imports', 'future_import', 'from __future__ import annotations\nfrom __future__ import division\nimport os\nimport sys\nprint(os.sep)\n', False),
         ('combine_imports', 'star_between', 'from os.path import join\nfrom os.path import *\nfrom os.path import split\nprint(join("a", "b"))\n', False),
+        ('remove_literal_statements', 'module_doc_augassign_only', '"""module docstring"""\n__doc__ += " (extended)"\nresult = [1]\nprint(result)\n', True),
+        ('remove_literal_statements', 'module_doc_augassign_format', '"""module docstring %(name)s"""\n__doc__ %= {"name": "x"}\nprint(1)\n', True),
+        ('remove_literal_statements', 'module_doc_deleted', '"""module docstring"""\ndel __doc__\nprint(1)\n', True),
+        ('remove_literal_statements', 'class_doc_augassign', 'class K:\n    """class docstring"""\n    __doc__ += " more"\nprint(K.__doc__)\n', True),
         ('remove_pass', 'pass_then_string_in_def', "def f():\n    pass\n    'not a docstring'\n    return 1\nprint(f.__doc__, f())\n", True),
         ('remove_pass', 'pass_then_string_in_class', "class C:\n    pass\n    'not a docstring'\n    x = 1\nprint(C.__doc__, C.x)\n", True),
         ('remove_pass', 'pass_then_string_in_module', "pass\n'not a docstring'\nprint(__doc__)\n", True),
